@@ -157,6 +157,22 @@ fn roundtrip_xyz(ctx: &Ctx, lines: &[Line], eol: &str, final_newline: bool, what
                     }
                 }
             }
+            // ... and the same colours: what the library delivers as normalised colour (the view every
+            // other consumer of the E57 file gets) is channel / 255
+            if let Ok(it) = r.pointcloud_simple(&pcs[0]) {
+                for (i, p) in it.enumerate() {
+                    let Ok(p) = p else { break };
+                    if let (Some(c), Some(e)) = (&p.color, exp.get(i)) {
+                        let got = [c.red, c.green, c.blue];
+                        for k in 0..3 {
+                            if (got[k] as f64 * 255.0 - e.1[k] as f64).abs() > 0.01 {
+                                ctx.violation(format!("{P}/from-xyz-colour-scale"), format!("point {i}: the E57 file written by e57-from-xyz delivers colour channel {k} as {} (= {:.3}/255) through the library, the text says {} ({what})", got[k], got[k] as f64 * 255.0, e.1[k]));
+                                return false;
+                            }
+                        }
+                    }
+                }
+            }
         }
     }
     true
@@ -180,6 +196,38 @@ pub fn t1_lattice(ctx: &Ctx) {
         ctx.observe_u64((how * 10 + rot) as u64);
         ctx.nontrivial();
     }
+}
+
+/// directory mode with many damaged files: 255 / 256 / 257 damaged files next to 0 or 2 intact ones
+/// (an exit status that counts failures wraps around at 256)
+pub fn t2_check_crc_many(ctx: &Ctx) {
+    let bad = [255usize, 256, 257, 512][ctx.pick("damaged-files", 4)];
+    let good = [0usize, 2][ctx.pick("intact-files", 2)];
+    let base = crate::c07::file(4);
+    let wd = WorkDir::new("many");
+    let d = wd.path("in");
+    let _ = std::fs::create_dir_all(&d);
+    for i in 0..bad {
+        let mut b = base.clone();
+        let pg = (i % (b.len() / 1024)).min(b.len() / 1024 - 1);
+        b[pg * 1024 + 100 + i % 800] ^= 0x10;
+        if std::fs::write(d.join(format!("bad{i:04}.e57")), &b).is_err() {
+            return;
+        }
+    }
+    for i in 0..good {
+        if std::fs::write(d.join(format!("good{i}.e57")), &base).is_err() {
+            return;
+        }
+    }
+    ctx.describe(|| format!("e57-check-crc on a directory with {bad} damaged and {good} intact files"));
+    let Some((ok, _, err)) = run_tool(ctx, "e57-check-crc", &d) else { return };
+    if ok {
+        ctx.violation(format!("{P}/check-crc-directory-verdict"), format!("e57-check-crc exits with success on a directory with {bad} damaged files ({good} intact); stderr: {}", err.chars().take(200).collect::<String>()));
+        return;
+    }
+    ctx.observe_u64((bad * 10 + good) as u64);
+    ctx.nontrivial();
 }
 
 /// T1b: line shapes within <= 2 deviations of "6 clean columns"; line counts 0, 1, cap-1, cap, cap+1
